@@ -15,7 +15,6 @@ from .utils import (
     Unusable,
     UsageError,
     fresh_error,
-    subtler_type,
 )
 
 recurse = Unusable(
@@ -425,7 +424,10 @@ class NameConverter(ast.NodeTransformer):
         map_mangled,
         code_mangled,
         own_syms=(),
+        lookup_prefix="___TYPE_",
     ):
+        self.lookup_prefix = lookup_prefix
+        self.lookup_keys = set()
         # own_syms: those of the recurse symbols that are the function's own
         # name. In a function that takes self, that name is not bound to
         # self: f(self, x) is written in full
@@ -564,12 +566,13 @@ class NameConverter(ast.NodeTransformer):
             )
 
         def _make_lookup_call(key, arg):
-            # (not the bare name `type`, which the method may shadow)
-            name = (
-                "__SUBTLER_TYPE__"
-                if self.analysis.lookup_for(key) is subtler_type
-                else "__PLAIN_TYPE__"
-            )
+            # (not the bare name `type`, which the method may shadow). How an
+            # argument is keyed - type(x), or type[x] for a class where some
+            # method has a type[...] annotation - is read from a global that
+            # every build sets again: an activation that started before a
+            # registration keys its later recursions like the current table
+            name = f"{self.lookup_prefix}{key}__"
+            self.lookup_keys.add(key)
             if written is None:
                 value = ast.NamedExpr(
                     target=ast.Name(id=f"{tmp}{key}", ctx=ast.Store()),
@@ -854,7 +857,9 @@ def recode(
         # A method of a class: its private names (self.__x) were mangled by
         # the compiler of the class body, which is not there any more
         tree = _Mangler(qualparts[-2]).visit(tree)
-    new = NameConverter(
+    lookup_prefix = f"___TYPE{ovld.id}_"
+    converter = NameConverter(
+        lookup_prefix=lookup_prefix,
         anal=ovld.argument_analysis,
         recurse_sym=recurse_sym,
         call_next_sym=call_next_sym,
@@ -862,7 +867,8 @@ def recode(
         map_mangled=map_mangled,
         code_mangled=code_mangled,
         own_syms=own_syms,
-    ).visit(tree)
+    )
+    new = converter.visit(tree)
     new.body[0].decorator_list = []
     _verif.point("recode.ast", fn=fn, tree=new)
     if fn.__closure__:
@@ -892,8 +898,9 @@ def recode(
     new_fn.__kwdefaults__ = fn.__kwdefaults__
     new_fn.__annotations__ = fn.__annotations__
     new_fn = _mark_code(rename_function(new_fn, newname), slot)
-    new_fn.__globals__["__SUBTLER_TYPE__"] = subtler_type
-    new_fn.__globals__["__PLAIN_TYPE__"] = type
+    analysis = ovld.argument_analysis
+    for key in {*converter.lookup_keys, *analysis.counts}:
+        new_fn.__globals__[f"{lookup_prefix}{key}__"] = analysis.lookup_for(key)
     new_fn.__globals__[ovld_mangled] = ovld.dispatch
     new_fn.__globals__[map_mangled] = ovld.map
     new_fn.__globals__[code_mangled] = new_fn.__code__
